@@ -19,7 +19,7 @@ from vk.ref.search import Space
 import unified_planning.environment as _upenv
 
 BOUNDS = {
-    "quick": dict(k=3, node_cap=3000, max_inst_o=14, max_inst_c=28, max_gfl=24, max_plans_c=40, max_plans_o=12, tries=6),
+    "quick": dict(k=3, node_cap=3000, max_inst_o=14, max_inst_c=28, max_gfl=24, max_plans_c=40, max_plans_o=12, tries=8),
     "thorough": dict(k=4, node_cap=40000, max_inst_o=20, max_inst_c=44, max_gfl=32, max_plans_c=200, max_plans_o=40, tries=6),
 }
 
@@ -179,6 +179,10 @@ def prepare(key, tier, res, prop, direct=None):
         except Unsupported:
             res.count(pre + "gen_unsupported_by_oracle")
             continue
+        if gt in ("nothing-reachable", "init-not-ok", "no-literal") and rng.random() < 0.85:
+            # no action is applicable initially / nothing changes: neither side has a plan worth judging (a few are kept)
+            res.count(pre + "gen_nothing_reachable")
+            continue
         # supported kind of the compiler(s): the library's own test
         cls = None if tg.is_pipeline else _compiler_class(tname)
         kinds = [CompilationKind[k] for k in tg.kinds]
@@ -200,6 +204,10 @@ def prepare(key, tier, res, prop, direct=None):
         res.count(pre + "no_case_generated")
         return None
     p = _new_prepared(key, tier, tg, rec, feats, sorted(tags), gt, pb, env, sp_o, b, ctx)
+    if _too_many_conditional_effects(p):
+        # the conditional-effects remover enumerates the powerset of an action's conditional effects (2^n variants)
+        res.count(pre + "skipped_powerset_too_large")
+        return None
     st = _compile(p, res)
     if st is None:
         return None
@@ -252,6 +260,29 @@ def _new_prepared(key, tier, tg, rec, feats, tags, gt, pb, env, sp_o, b, ctx):
     p.rejected = None
     p.result = None
     return p
+
+
+MAX_COND_EFFECTS = 9
+
+
+def _too_many_conditional_effects(p):
+    """Deterministic size guard for targets containing the conditional-effects remover: is there an action with more than
+    MAX_COND_EFFECTS conditional effects in the problem that stage receives?  (For a pipeline the earlier stages are
+    compiled one by one to look at that intermediate problem; failures there are left to the real run.)"""
+    from unified_planning.engines import CompilationKind
+
+    stages = p.target.stages or [p.target.name]
+    if "cerm" not in stages:
+        return False
+    pb = p.pb
+    try:
+        for short, kind in zip(stages, p.target.kinds):
+            if short == "cerm":
+                break
+            pb = _compiler_class(short)().compile(pb, CompilationKind[kind]).problem
+    except Exception:
+        return False
+    return any(len(getattr(a, "conditional_effects", [])) > MAX_COND_EFFECTS for a in pb.actions)
 
 
 def _compile(p, res):
